@@ -199,6 +199,12 @@ class SchemaField:
                 raise ValueError("not isfinite number")
             if num_range and not (v >= num_range[0] and v <= num_range[1]):
                 raise ValueError(f"out of range {num_range}")
+            # int()/float() also take '1_0', ' 5', '+5', '1e5' and non-ASCII digits
+            if not re.fullmatch(
+                r"-?[0-9]+" if num_type is int else r"-?([0-9]+\.?[0-9]*|\.[0-9]+)",
+                value,
+            ):
+                raise ValueError(f"not a decimal number: {value!r}")
             # all good
             return None
         except ValueError as exc:
